@@ -457,6 +457,21 @@ type extractCtx struct {
 	// helper contexts (a private function that is handed the buffer)
 	retPath  string // decode helpers: the field whose storage must be returned
 	returned bool
+	// values read into locals of a decode helper and handed out through its results
+	pending    map[types.Object]int // local -> index of the item (in this context's output) it holds
+	retTargets []retTarget          // what the caller does with each result
+	countIn    types.Object         // parameter that carries the caller's element count
+	countArg   types.Object         // the caller's local that was passed for it
+	countOut   int                  // index of the result that hands the element count to the caller (-1: none)
+}
+
+// retTarget says where result #i of a decode helper goes in the caller: into a field of the
+// message, or into a local that the caller uses as an element count.
+type retTarget struct {
+	path  string
+	field bool
+	ftype types.Type
+	local types.Object
 }
 
 // helperCtx recognises a call of a declared function (not a buffer method, not a nested
@@ -509,6 +524,12 @@ func (c *extractCtx) helperCtx(call *ast.CallExpr) (*extractCtx, bool, error) {
 			} else {
 				p, _, ok := c.fieldPath(call.Args[idx])
 				if !ok {
+					// a local of the caller: the element count it read before (checked by the caller)
+					if lo, isVar := objOf(c.x.info, call.Args[idx]).(*types.Var); isVar && !lo.IsField() && hc.countArg == nil && c.dir == "decode" {
+						hc.countIn, hc.countArg = obj, lo
+						idx++
+						continue
+					}
 					return nil, false, cerr(call.Pos(), "%s: helper %s is given %s, which is not a field of the message", c.fi.Key, hf.Key, c.x.l.str(call.Args[idx]))
 				}
 				hc.locals[obj] = p
@@ -1040,6 +1061,49 @@ func (c *extractCtx) decodeStmts(stmts []ast.Stmt) ([]LItem, error) {
 			}
 			out = append(out, items...)
 		case *ast.ReturnStmt:
+			// a helper that hands out the values it read: every result is a local holding one read
+			if c.retTargets != nil && i == len(stmts)-1 {
+				results := st.Results
+				if len(results) == 0 && c.fi.Decl.Type.Results != nil {
+					for _, f := range c.fi.Decl.Type.Results.List {
+						for _, nm := range f.Names {
+							results = append(results, nm)
+						}
+					}
+				}
+				if len(results) != len(c.retTargets) {
+					return nil, cerr(s.Pos(), "%s: returns %d values for %d targets", c.fi.Key, len(results), len(c.retTargets))
+				}
+				used := map[int]bool{}
+				drop := -1
+				for j, e := range results {
+					lo := objOf(c.x.info, e)
+					idx, has := c.pending[lo]
+					if lo == nil || !has || used[idx] {
+						return nil, cerr(s.Pos(), "%s: result %d (%s) is not a value read from the buffer by this helper", c.fi.Key, j, c.x.l.str(e))
+					}
+					used[idx] = true
+					tg := c.retTargets[j]
+					if tg.field {
+						bits, signed := typeBits(tg.ftype)
+						out[idx].Field, out[idx].FType, out[idx].FBits, out[idx].Signed = tg.path, types.TypeString(tg.ftype, func(p *types.Package) string { return p.Name() }), bits, signed
+					} else {
+						// an element count for the caller: the item itself is emitted with the list
+						if out[idx].Kind != "u16" || c.countOut >= 0 {
+							return nil, cerr(s.Pos(), "%s: result %d is kept in a local of the caller but is not a u16 element count", c.fi.Key, j)
+						}
+						c.countOut, drop = j, idx
+					}
+				}
+				if len(used) != len(c.pending) {
+					return nil, cerr(s.Pos(), "%s: a value read from the buffer is dropped", c.fi.Key)
+				}
+				if drop >= 0 {
+					out = append(out[:drop], out[drop+1:]...)
+				}
+				c.returned = true
+				continue
+			}
 			// only at the end of a helper: return the storage parameter
 			if c.retPath == "" || i != len(stmts)-1 || len(st.Results) != 1 {
 				return nil, cerr(s.Pos(), "%s: unsupported return in decoder", c.fi.Key)
@@ -1049,9 +1113,53 @@ func (c *extractCtx) decodeStmts(stmts []ast.Stmt) ([]LItem, error) {
 			}
 			c.returned = true
 		case *ast.DeclStmt:
-			// "var q QID" inside list loops is handled by the loop code.
+			// "var q QID" inside list loops is handled by the loop code; a plain declaration
+			// without initialiser ("var n uint16") only introduces a local
+			if gd, ok := st.Decl.(*ast.GenDecl); ok && gd.Tok == token.VAR {
+				plain := true
+				for _, sp := range gd.Specs {
+					if vs, ok := sp.(*ast.ValueSpec); !ok || len(vs.Values) != 0 {
+						plain = false
+					}
+				}
+				if plain {
+					continue
+				}
+			}
 			return nil, cerr(s.Pos(), "%s: unsupported declaration in decoder", c.fi.Key)
 		case *ast.AssignStmt:
+			// a, b, n = helper(buf): a private helper reads several values and hands them out
+			if len(st.Lhs) > 1 && len(st.Rhs) == 1 {
+				if hcall, ok := unparen(st.Rhs[0]).(*ast.CallExpr); ok {
+					if hc, ok, err := c.helperCtx(hcall); err != nil {
+						return nil, err
+					} else if ok {
+						hc.countOut = -1
+						for _, lhs := range st.Lhs {
+							if p, t, isField := c.fieldPath(lhs); isField {
+								hc.retTargets = append(hc.retTargets, retTarget{path: p, field: true, ftype: t})
+							} else if lo := objOf(c.x.info, lhs); lo != nil {
+								hc.retTargets = append(hc.retTargets, retTarget{local: lo})
+							} else {
+								return nil, cerr(s.Pos(), "%s: result of %s is stored in %s, which is neither a field nor a local", c.fi.Key, c.x.l.str(hcall.Fun), c.x.l.str(lhs))
+							}
+						}
+						items, err := hc.decodeStmts(hc.fi.Decl.Body.List)
+						if err != nil {
+							return nil, err
+						}
+						if !hc.returned {
+							return nil, cerr(s.Pos(), "%s: helper %s does not hand out what it read", c.fi.Key, c.x.l.str(hcall.Fun))
+						}
+						out = append(out, items...)
+						if hc.countOut >= 0 {
+							countVar = hc.retTargets[hc.countOut].local
+							countPos = s.Pos()
+						}
+						continue
+					}
+				}
+			}
 			if len(st.Lhs) != 1 || len(st.Rhs) != 1 {
 				return nil, cerr(s.Pos(), "%s: unsupported multi-assignment", c.fi.Key)
 			}
@@ -1075,9 +1183,20 @@ func (c *extractCtx) decodeStmts(stmts []ast.Stmt) ([]LItem, error) {
 						return nil, cerr(s.Pos(), "%s: result of %s is not stored in a field of the message", c.fi.Key, c.x.l.str(hcall.Fun))
 					}
 					hc.retPath = lp
+					if hc.countArg != nil {
+						if hc.countArg != countVar {
+							return nil, cerr(s.Pos(), "%s: %s is handed to %s but is not the element count read before", c.fi.Key, hc.countArg.Name(), c.x.l.str(hcall.Fun))
+						}
+						countVar = nil // consumed by the helper's loop
+					}
 					items, err := hc.decodeStmts(hc.fi.Decl.Body.List)
 					if err != nil {
 						return nil, err
+					}
+					for k := range items {
+						if items[k].Kind == "list16" && hc.countIn != nil && items[k].Pos == token.NoPos {
+							items[k].Pos = countPos
+						}
 					}
 					if !hc.returned {
 						return nil, cerr(s.Pos(), "%s: helper %s does not return the storage it filled", c.fi.Key, c.x.l.str(hcall.Fun))
@@ -1170,12 +1289,26 @@ func (c *extractCtx) decodeStmts(stmts []ast.Stmt) ([]LItem, error) {
 				}
 				return nil, cerr(s.Pos(), "%s: value read into local %s is not used in a recognised way", c.fi.Key, id.Name)
 			}
+			// inside a helper: a value read into a local / named result that is handed out later
+			if lo := objOf(c.x.info, st.Lhs[0]); lo != nil && c.retTargets != nil {
+				if _, _, isField := c.fieldPath(st.Lhs[0]); !isField {
+					if c.pending == nil {
+						c.pending = map[types.Object]int{}
+					}
+					out = append(out, LItem{Kind: primKind(prim), Conv: c.x.l.str(rhs), Pos: s.Pos()})
+					c.pending[lo] = len(out) - 1
+					continue
+				}
+			}
 			it, err := c.leaf(primKind(prim), st.Lhs[0], c.x.l.str(rhs), s.Pos())
 			if err != nil {
 				return nil, err
 			}
 			out = append(out, it)
 		case *ast.ForStmt:
+			if countVar == nil && c.countIn != nil {
+				countVar, countPos = c.countIn, s.Pos()
+			}
 			if countVar == nil {
 				return nil, cerr(s.Pos(), "%s: loop without a preceding element count", c.fi.Key)
 			}
@@ -1198,6 +1331,25 @@ func (c *extractCtx) decodeStmts(stmts []ast.Stmt) ([]LItem, error) {
 			it.Reset = resetSeen[it.Field]
 			out = append(out, it)
 			countVar = nil
+		case *ast.IfStmt:
+			// the payload length check written without a local:
+			//   if b.Read32() != uint32(len(F)) { b.markOverrun() }
+			//   if b.Read32() == uint32(len(F)) { return }; b.markOverrun()      (last two statements)
+			path, eq, ok, err := c.payloadCountDirect(st)
+			if err != nil {
+				return nil, err
+			}
+			if !ok {
+				return nil, cerr(s.Pos(), "%s: unsupported statement %T in decoder", c.fi.Key, s)
+			}
+			if eq {
+				// equal → return; the overrun mark must be all that follows
+				if i+2 != len(stmts) || !isMarkOverrun(c.x.info, stmts[i+1]) {
+					return nil, cerr(s.Pos(), "%s: a matching payload length returns, but what follows is not just b.markOverrun()", c.fi.Key)
+				}
+				i++
+			}
+			out = append(out, LItem{Kind: "count32", Field: path, Pos: s.Pos()})
 		default:
 			return nil, cerr(s.Pos(), "%s: unsupported statement %T in decoder", c.fi.Key, s)
 		}
@@ -1774,12 +1926,18 @@ func (x *codecX) registryEntries() ([]regEntry, []error) {
 				errs = append(errs, cerr(call.Pos(), "message type of register call is not constant"))
 				return true
 			}
-			fl, ok := call.Args[1].(*ast.FuncLit)
-			if !ok || len(fl.Body.List) != 1 {
-				errs = append(errs, cerr(call.Pos(), "constructor of type %d is not a single-return function literal", num))
+			// the constructor: a function literal, or a declared function handed over by name
+			var body *ast.BlockStmt
+			if fl, isLit := unparen(call.Args[1]).(*ast.FuncLit); isLit {
+				body = fl.Body
+			} else if tf := x.l.FuncOf(callee(x.info, &ast.CallExpr{Fun: unparen(call.Args[1])})); tf != nil && tf.Decl.Body != nil && tf.Decl.Recv == nil {
+				body = tf.Decl.Body
+			}
+			if body == nil || len(body.List) != 1 {
+				errs = append(errs, cerr(call.Pos(), "constructor of type %d is not a single-return function", num))
 				return true
 			}
-			ret, ok := fl.Body.List[0].(*ast.ReturnStmt)
+			ret, ok := body.List[0].(*ast.ReturnStmt)
 			if !ok || len(ret.Results) != 1 {
 				errs = append(errs, cerr(call.Pos(), "constructor of type %d is not a single-return function literal", num))
 				return true
@@ -1832,4 +1990,64 @@ func (x *codecX) fixedSizeOf(t *types.Named) (int64, bool) {
 		return 0, false
 	}
 	return constInt(x.info, ret.Results[0])
+}
+
+func isMarkOverrun(info *types.Info, s ast.Stmt) bool {
+	es, ok := s.(*ast.ExprStmt)
+	if !ok {
+		return false
+	}
+	mc, ok := es.X.(*ast.CallExpr)
+	return ok && calleeKey(info, mc) == "p9.buffer.markOverrun"
+}
+
+// payloadCountDirect recognises an if statement whose condition compares a u32 read from the
+// buffer directly with uint32(len(F)): with != the body must be exactly b.markOverrun(), with
+// == exactly "return".  Result: the field path, whether the comparison is ==.
+func (c *extractCtx) payloadCountDirect(ifs *ast.IfStmt) (string, bool, bool, error) {
+	be, ok := unparen(ifs.Cond).(*ast.BinaryExpr)
+	if !ok || (be.Op != token.NEQ && be.Op != token.EQL) || ifs.Else != nil || ifs.Init != nil || len(ifs.Body.List) != 1 {
+		return "", false, false, nil
+	}
+	x, y := unparen(be.X), unparen(be.Y)
+	isRead := func(e ast.Expr) bool {
+		call, ok := e.(*ast.CallExpr)
+		if !ok || len(call.Args) != 0 {
+			return false
+		}
+		cf := callee(c.x.info, call)
+		if !c.x.isBufMethod(cf) || objOfSelBase(c.x.info, call.Fun) != c.buf {
+			return false
+		}
+		prim, err := c.x.readPrim(cf)
+		return err == nil && prim.Kind == "u32" && !prim.Mask
+	}
+	if !isRead(x) {
+		x, y = y, x
+	}
+	if !isRead(x) {
+		return "", false, false, nil
+	}
+	inner, _, _ := c.x.stripConvMask(y)
+	lc, ok := unparen(inner).(*ast.CallExpr)
+	if !ok || len(lc.Args) != 1 {
+		return "", false, false, nil
+	}
+	if id, ok := lc.Fun.(*ast.Ident); !ok || id.Name != "len" {
+		return "", false, false, nil
+	}
+	path, _, ok := c.fieldPath(lc.Args[0])
+	if !ok {
+		return "", false, false, nil
+	}
+	if be.Op == token.NEQ {
+		if !isMarkOverrun(c.x.info, ifs.Body.List[0]) {
+			return "", false, false, cerr(ifs.Pos(), "%s: a payload length mismatch does not mark the buffer as overrun", c.fi.Key)
+		}
+		return path, false, true, nil
+	}
+	if ret, isRet := ifs.Body.List[0].(*ast.ReturnStmt); !isRet || len(ret.Results) != 0 {
+		return "", false, false, nil
+	}
+	return path, true, true, nil
 }
